@@ -17,6 +17,11 @@ FIXED = [
  ("F12", "C07", "59003d2", "AsyncLruCache::commit_wmap looped forever when more slices were being loaded concurrently than the cache limit (livelock without any suspension point)", "regress/C07/commit-wmap-endless-loop.json"),
  ("F13", "C06", "407237b", "a read running concurrently with the first write to a freshly allocated data cluster returned the stale previous content of that host cluster", "regress/C06/read-sees-stale-new-cluster.json"),
  ("F14", "C18", "ca77831", "flush_meta cleared need_flush after its last pass, losing the mark of metadata dirtied while that pass was running", "regress/C18/flag-cleared-after-last-pass.json"),
+ ("F15", "C04", "a8a588d", "discard dropped the refcount of the host cluster before the cleared L2 entry was durable: a crash in between (refcounts are flushed first) left the on-disk mapping pointing to a free, possibly re-used cluster", "regress/C04/discard-refcount-before-mapping.json"),
+ ("F16", "C04", "41ff573", "copy-on-write dropped the references of a replaced compressed cluster without a barrier after the L2 slice write: the refcount flush could persist while the slice write was lost", "regress/C04/compressed-cow-free-before-sync.json"),
+ ("F17", "C04", "5762005", "the first repair of F11 (free the preallocation) was not crash safe: the dropped reference could reach the disk before the new mapping; the preallocation is now reused (follow-up b237dee zeroes it durably before it is mapped: C05)", "regress/C04/zero-prealloc-free-before-mapping.json"),
+ ("F18", "C07", "e0f5d8a", "copy-on-write/discard settled a new L2 cluster with one of its slices write-locked while cache flush takes the cluster lock before slice locks: deadlock (follow-up f10853f: do not hold the new-cluster map lock while waiting for a cluster lock)", "regress/C07/settle-vs-flush-deadlock.json"),
+ ("F19", "C05", "46c579b", "copy-on-write wrote the whole L2 slice in place while it already mapped sibling clusters of the same multi-cluster write that were allocated but not zeroed yet: a crash exposed the stale content of a reused host cluster in place of synced data", "regress/C05/cow-slice-flush-exposes-unzeroed-sibling.json"),
  ("F11", "C03", "c069255", "writing to a zero-flagged cluster with a preallocation leaked the preallocated host cluster", "regress/C03/zero-prealloc-write-leaks.json"),
 ]
 KNOWN = [
@@ -41,13 +46,6 @@ KNOWN = [
            "deadlock on slice locks (history contains an eviction during a concurrent batch)",
       rules=["ApiErr", "DiscardErr", "Deadlock", "Budget"], tags=["hist:eviction_during_concurrency"],
       reproducer="findings/C07-eviction-race.json", domain="conc"),
- dict(id="C07-discard-not-synchronised-with-inflight-io", property="C07",
-      what="same root cause as C06-discard-not-synchronised-with-inflight-io: a host cluster released by a concurrent discard "
-           "is re-allocated (e.g. as an L2 table) while older requests still target it; later calls trip over the damaged "
-           "metadata and panic ('Cannot decrease refcount below 0'), fail or block (history contains a batch in which a discard "
-           "runs concurrently with other calls)",
-      rules=["Panic", "ApiErr", "DiscardErr", "Deadlock", "Budget", "ReopenOpen"], tags=["hist:concurrent_discard"],
-      reproducer="findings/C07-discard-race.json", domain="conc"),
  dict(id="C18-slice-eviction-under-concurrency", property="C18",
       what="same root cause as C06-slice-eviction-under-concurrency: an update made through a slice evicted while several "
            "tasks run is lost from the cache, so after flush_meta the flag is false although file and memory disagree "
